@@ -219,9 +219,16 @@ func RunFault(sc FaultScenario) (fs []Finding, trace string, n1, n2 int) {
 	// a further command on the same connection, if the server kept it open: the backend streams
 	// must still be in sync
 	sameConn := false
+	ended1, ended2 := false, false // the server ended the connection while answering follow-up 1 / 2
 	if !a.Ended {
 		sameConn = true
 		a.Do(wire.Op{Kind: "get", Key: fKey, Opaque: 0x7100})
+		ended1, ended2 = a.Ended, a.Ended
+		if !a.Ended && sc.Cfg.Lock != "none" {
+			// and a get whose terminator is a frame / line of its own
+			a.Do(wire.Op{Kind: "mget", Keys: []string{fKey}, Quiet: []bool{sc.Cfg.Proto == "binary"}, NoopEnd: sc.Cfg.Proto == "binary", Opaque: 0x7200})
+			ended2 = a.Ended
+		}
 	}
 	by.Do(wire.Op{Kind: "get", Key: "z", Opaque: 0x510})
 	byEnded := by.Ended
@@ -316,7 +323,7 @@ func RunFault(sc FaultScenario) (fs []Finding, trace string, n1, n2 int) {
 	if sameConn && len(ar) > 1 {
 		rr := ar[1]
 		switch {
-		case rr.Malformed != "" && !(a.Ended && strings.HasSuffix(rr.Malformed, "reply not terminated")):
+		case rr.Malformed != "" && !(ended1 && strings.HasSuffix(rr.Malformed, "reply not terminated")):
 			add("same-connection-followup", "the next command on the faulted connection got a malformed reply: "+rr.Malformed)
 		case rr.Class == "values":
 			for _, h := range rr.Hits {
@@ -331,6 +338,17 @@ func RunFault(sc FaultScenario) (fs []Finding, trace string, n1, n2 int) {
 			}
 		case rr.Class == "none" && !a.Cli.Closed() && !hung && !spun && rr.Errs == 0:
 			add("same-connection-followup", "the next command on the faulted connection got neither a reply nor a close")
+		}
+	}
+	if sameConn && len(ar) > 2 {
+		rr := ar[2]
+		switch {
+		case rr.Malformed != "" && !(ended2 && strings.HasSuffix(rr.Malformed, "reply not terminated")):
+			add("same-connection-followup", "the second command after the fault on the faulted connection got a malformed reply: "+rr.Malformed)
+		case rr.Class == "values" && rr.Terms != 1 && !a.Cli.Closed() && rr.Errs == 0:
+			add("same-connection-followup", fmt.Sprintf("a later get on the faulted connection was answered with %d terminators", rr.Terms))
+		case rr.Class == "none" && !a.Cli.Closed() && !hung && !spun && rr.Errs == 0:
+			add("same-connection-followup", "a later get on the faulted connection got neither a reply nor a close")
 		}
 	}
 	for i, rr := range fr {
@@ -420,7 +438,11 @@ func runC10(c *rt.Ctx) {
 			}
 		}
 	}
-	cfgs = append(cfgs, Cfg{Orca: "l1l2", Lock: "single", Proto: "binary", L1H: "std"})
+	cfgs = append(cfgs, Cfg{Orca: "l1l2", Lock: "single", Proto: "binary", L1H: "std"},
+		// the locking wrapper splits multi-key gets and steers the terminator: a fault in the middle of
+		// one must not leave anything behind for the next request (text: every get ends in END)
+		Cfg{Orca: "l1l2", Lock: "multi", Proto: "text", L1H: "std"}, Cfg{Orca: "l1only", Lock: "single", Proto: "text", L1H: "std"},
+		Cfg{Orca: "l1l2b", Lock: "multi", Proto: "binary", L1H: "std"})
 	faults := allFaults()
 	item := 0
 	for _, cfg := range cfgs {
